@@ -36,6 +36,34 @@ theorem frame (hN : Names L E) (f : Nat) (s : St L) (m : ModPath) (hm : GoodName
   obtain ⟨rr, s1⟩ := r
   cases rr <;> exact ⟨hF, hG⟩
 
+/-- A failed `load m` leaves no residue, for EVERY failure kind `e` (syntax error, missing file, missing imported name,
+    failing import, RecursionError, and `Errors.Fatal` = any unexpected exception inside the load, e.g. the ValueError of a free
+    function with a `self` parameter): the rollback in `Modules.load` is unconditional, so afterwards `m` is not registered and has
+    no entrypoint, no symbol and no completed flag — unless the library load that runs first had itself loaded `m` completely. -/
+theorem failed_load_leaves_no_residue (hN : Names L E) (f : Nat) (s : St L) (m : ModPath) (e : Err) (hm : GoodName m)
+    (hC : Coherent L E s) (hfail : (step L E (f + 1) s (.load m)).1 = .error e) (hp : m ∉ s.mods)
+    (hlib : m ∈ E.libs ∨ m ∉ (loadAll L E f E.libs s).2.mods) :
+    m ∉ (step L E (f + 1) s (.load m)).2.mods ∧ ahas (step L E (f + 1) s (.load m)).2.eps m = false ∧
+    (∀ kv, kv ∈ (step L E (f + 1) s (.load m)).2.db → modOf kv.1 ≠ m) ∧ m ∉ (step L E (f + 1) s (.load m)).2.completed := by
+  have hC' := step_coherent L E hN (f + 1) s (.load m) hm hC
+  have hreg : m ∉ (step L E (f + 1) s (.load m)).2.mods := by
+    simp only [step, loadAll] at hfail ⊢
+    cases h1 : loadOne L E (loadAll L E f) (unload L E) m s with
+    | mk r s1 =>
+      cases r with
+      | error e1 =>
+        simp only [h1]
+        exact loadOne_failed_unregistered L E (loadAll L E f) m s s1 e1 h1 hp hlib
+      | ok u => simp [h1, loadAll] at hfail
+  refine ⟨hreg, ?_, ?_, ?_⟩
+  · cases h : ahas (step L E (f + 1) s (.load m)).2.eps m with
+    | false => rfl
+    | true => exact absurd (hC'.2.1 m h) hreg
+  · intro kv hkv heq
+    exact hreg (heq ▸ hC'.1.tags kv.1 kv.2 hkv)
+  · intro hc
+    exact hreg (hC'.1.completed m hc)
+
 /-- `unload m`: `m` is gone, and every module that is left is untouched (registration, entrypoint, table, completed flag,
     symbol files, stacks) -/
 theorem unload_clears (s : St L) (m : ModPath) : m ∉ (unload L E s m).mods ∧ Sub L s (unload L E s m) :=
@@ -359,6 +387,26 @@ theorem namesRetry : Names descLang envRetry :=
   poolNames _ _ _ (by decide) (by decide) (by decide)
 theorem namesUnload : Names descLang envUnload :=
   poolNames _ _ _ (by decide) (by decide) (by decide)
+
+/-- `app/ab.py`: `from app.a import A0` and `def attach(self, v: int) -> int` (the load dies with an unexpected exception) -/
+def descAbCrash : Desc := { imports := [(a, ['A','0'])], classes := [{ name := ['A','b','0'], methods := [{ name := ['g'] }] }], crash := true }
+def abc : ModPath := ['a','p','p','.','a','b','c']
+/-- `app/abc.py`: `from app.ab import Ab0`, uses it -/
+def descAbcUser : Desc :=
+  { imports := [(ab, ['A','b','0'])], classes := [{ name := ['A','b','c','0'], methods := [{ name := ['g'], call := some (ab, ['A','b','0'], ['g']) }] }] }
+def envCrash : Env Desc := poolEnv [(a, descA), (ab, descAbCrash), (abc, descAbcUser)] [] main
+
+/-- non-vacuity of `failed_load_leaves_no_residue` for the unexpected-exception kind: the load of `app.ab` fails with Fatal, its
+    hypotheses hold, only the import `app.a` (complete) stays; the importer `app.abc` fails with Fatal the first AND the second
+    time it is asked for, and a fresh process says the same -/
+example :
+    (step descLang envCrash 30 init (.load ab)).1 = .error .loadFatal ∧ ab ∉ init.mods ∧
+    ab ∉ (loadAll descLang envCrash 29 envCrash.libs init).2.mods ∧
+    (step descLang envCrash 30 init (.load ab)).2.mods = [a] ∧
+    (let s1 := (step descLang envCrash 30 init (.transpile abc)).2
+     (step descLang envCrash 30 init (.transpile abc)).1 = .error .loadFatal ∧
+     (step descLang envCrash 30 s1 (.transpile abc)).1 = .error .loadFatal ∧ s1.mods = [a]) := by
+  decide +kernel
 
 /-- non-vacuity of `unload_resets` / `inventory_unload`: after `transpile app.ab` both modules are registered, with entrypoints,
     symbols, completed flags and identities (nothing of which is left after `unload app.a`, whose cascade takes `app.ab` too) -/
